@@ -304,6 +304,12 @@ func runB(s spec, dir string, res *vf.Result) *vf.Result {
 			db.MonitorInterval = 0
 		}
 		db.BusyTimeout = 200 * time.Millisecond
+		if s.Kind == "S" && s.Seed%2 == 0 {
+			// litestream's own statements after a checkpoint (bookkeeping write,
+			// boundary lock) then often fail with SQLITE_BUSY against the live
+			// writer: the "checkpoint interrupted after it ran" window
+			db.BusyTimeout = time.Millisecond
+		}
 		db.CheckpointInterval = ci
 		db.Replica.MonitorEnabled = true
 		db.Replica.SyncInterval = rmon
